@@ -810,10 +810,10 @@ impl InflightBlocks {
                             }
                         }
                     }
-                    if !trace.is_empty() {
-                        trace.remove(&block);
-                    }
                 };
+                if !trace.is_empty() {
+                    trace.remove(&block);
+                }
             })
             .is_some()
     }
